@@ -723,6 +723,15 @@ fn directed(ctx: &mut Ctx) {
             8,
             vec![e(&[0, 1, 2], 0), e(&[0, 3, 4], 3), e(&[0, 5, 6], 5), e(&[1, 3, 5], 6), e(&[1, 4, 6], 0), e(&[2, 3, 6], 5), e(&[2, 4, 5], 3)],
         ),
+        // lazy: a pivot of maximal weight is skipped when variables are activated later
+        ("d:skip", 3, 8, vec![e(&[0], 1), e(&[0, 1, 2], 2), e(&[0, 1, 2], 2)]),
+        ("d:skip-bad", 3, 8, vec![e(&[0], 1), e(&[0, 1, 2], 2), e(&[0, 1, 2], 3)]),
+        (
+            "d:skip2",
+            6,
+            16,
+            vec![e(&[5], 7), e(&[1, 2, 5], 1), e(&[2, 3, 5], 2), e(&[1, 3, 5], 3), e(&[0, 4], 9), e(&[0, 1, 4], 9)],
+        ),
         ("d:wide", 3, 128, vec![e(&[0, 2], u128::MAX), e(&[1, 2], 1u128 << 127), e(&[0, 1], u128::MAX ^ (1u128 << 127))]),
         // out of domain
         ("d:mal-empty-first", 2, 8, vec![e(&[], 0), e(&[0], 1)]),
